@@ -26,7 +26,8 @@ class Pkt:
         return {BINARY_EVENT: EVENT, BINARY_ACK: ACK}.get(self.type, self.type)
 
     def key(self):
-        return (NAMES[self.type] if 0 <= self.type < 7 else self.type,
+        return (NAMES[self.type] if isinstance(self.type, int) and
+                0 <= self.type < 7 else self.type,
                 self.nsp, self.id, self.data)
 
     def __repr__(self):
